@@ -137,7 +137,7 @@ package httpgrpc
 //@ func (*serverStream).setHeader
 //@   locks_only[C05] &s.wmu
 //@   ensures[C03] headers_after_they_were_sent_are_refused: at_lock(s.headersSent) ==> result != nil && !called(toHeaders) && !called("http.ResponseWriter.WriteHeader") && s.headersSent
-//@   ensures[C03] otherwise_added_to_the_reply_headers: !at_lock(s.headersSent) ==> result == nil && calls(toHeaders) == 1
+//@   ensures[C03] otherwise_added_to_the_reply_headers: !at_lock(s.headersSent) ==> result == nil && calls(toHeaders) <= 1 && (len(md) > 0 ==> calls(toHeaders) == 1)
 //@   assert_call[C03] toHeaders : into_the_reply_headers_unprefixed: arg0 == md && arg1 == lastresult("http.ResponseWriter.Header") && arg2 == ""
 //@   ensures[C03] send_marks_headers_sent: send && !at_lock(s.headersSent) ==> s.headersSent && calls("http.ResponseWriter.WriteHeader") == 1
 //@   ensures[C03] plain_set_sends_nothing: !send ==> !called("http.ResponseWriter.WriteHeader") && s.headersSent == at_lock(s.headersSent)
@@ -145,7 +145,7 @@ package httpgrpc
 //
 //@ func (*serverStream).SetTrailer
 //@   locks_only[C05] &s.wmu
-//@   ensures[C03] appended_after_the_earlier_ones: len(s.tr) == at_lock(len(s.tr)) + 1 && s.tr[len(s.tr) - 1] == md
+//@   ensures[C03] appended_after_the_earlier_ones: (len(md) > 0 ==> len(s.tr) == at_lock(len(s.tr)) + 1 && s.tr[len(s.tr) - 1] == md) && (len(md) == 0 ==> (len(s.tr) == at_lock(len(s.tr)) + 1 && s.tr[len(s.tr) - 1] == md) || len(s.tr) == at_lock(len(s.tr)))
 //@   ensures[C03] earlier_trailers_kept: forall i int :: 0 <= i && i < at_lock(len(s.tr)) ==> s.tr[i] == at_lock(s.tr[i])
 //@   modifies s.tr, mem("metadata.MD")
 //
@@ -171,8 +171,8 @@ package httpgrpc
 //
 //@ func metadataFromProto
 //@   ensures[C03] result != nil && fresh(result)
-//@   loop loop#1 invariant[C03] visited_keys_copied_others_absent: md != nil && fresh(md) && (forall k string :: (iter_visited(k) ==> has(md, k) && md[k] == trailers[k].Values) && (!iter_visited(k) ==> !has(md, k)) && (iter_visited(k) ==> has(trailers, k)))
-//@   ensures[C03] exactly_the_received_keys_with_their_values: forall k string :: has(result, k) == has(trailers, k) && (has(trailers, k) ==> result[k] == trailers[k].Values)
+//@   loop loop#1 invariant[C03] visited_keys_copied_others_absent: md != nil && fresh(md) && (forall k string :: (iter_visited(k) ==> has(md, k) && (trailers[k] != nil ==> md[k] == trailers[k].Values)) && (!iter_visited(k) ==> !has(md, k)) && (iter_visited(k) ==> has(trailers, k)))
+//@   ensures[C03] exactly_the_received_keys_with_their_values: forall k string :: has(result, k) == has(trailers, k) && (has(trailers, k) && trailers[k] != nil ==> result[k] == trailers[k].Values)
 //@   modifies nothing
 //
 //@ func getPeer
@@ -375,6 +375,7 @@ package httpgrpc
 //@   ensures[C11] nothing_after_a_failed_write: stream_handler_ran && str.writeFailed ==> !called(writeProtoMessage)
 //@   assert_call[C11,C02] writeProtoMessage : is_the_final_frame_of_this_reply: arg0 == w && arg1 == lastresult(getStreamingCodec) && arg3 && typeis(arg2, "*HttpTrailer") && unbox(arg2, "*HttpTrailer") == &tr
 //@   assert_call[C02] writeProtoMessage : success_has_code_zero: err == nil ==> tr.Code == 0
+//@   assert_call[C05] writeProtoMessage : the_final_status_does_not_wait_for_the_clients_request_body: rd_avail(r.Body) <= 0 || called("(*http.ResponseController).EnableFullDuplex")
 //@   assert_call[C02] writeProtoMessage : failure_has_nonzero_code: err != nil ==> tr.Code != 0
 //@   assert_call[C02] writeProtoMessage : failure_carries_the_handlers_status: err != nil && is_status_err(err) && 0 < err_status_code(err) && err_status_code(err) <= 2147483647 ==> tr.Code == err_status_code(err) && (valid_utf8(err_status_msg(err)) ==> tr.Message == err_status_msg(err)) && tr.Details == err_status_details(err)
 //@   assert_call[C02] writeProtoMessage : the_status_message_can_be_carried_by_the_frame: valid_utf8(tr.Message)
